@@ -67,12 +67,57 @@ static std::string exactMath(const ModelPtr &m)
     return s;
 }
 
-static std::string modelDigest(const ModelPtr &m)
+static std::string contentDigest(const ModelPtr &m)
 {
     if (!m) {
         return "null";
     }
     return sha1ish(contentOf(m).dump() + "#" + exactMath(m));
+}
+
+// the models linked to the import sources of m (what resolveImports attaches) are reachable from m through public getters:
+// they are part of what a call on m may depend on and must leave unchanged
+static void linkedModels(const ModelPtr &m, std::vector<ModelPtr> &seen, std::string &out, int depth)
+{
+    if (!m || depth > 6) {
+        return;
+    }
+    std::vector<ImportSourcePtr> sources;
+    for (size_t i = 0; i < m->unitsCount(); ++i) {
+        if (m->units(i)->isImport()) {
+            sources.push_back(m->units(i)->importSource());
+        }
+    }
+    std::function<void(const ComponentPtr &)> walk = [&](const ComponentPtr &c) {
+        if (c->isImport()) {
+            sources.push_back(c->importSource());
+        }
+        for (size_t i = 0; i < c->componentCount(); ++i) {
+            walk(c->component(i));
+        }
+    };
+    for (size_t i = 0; i < m->componentCount(); ++i) {
+        walk(m->component(i));
+    }
+    for (auto &is : sources) {
+        auto lm = is ? is->model() : nullptr;
+        if (lm && std::find(seen.begin(), seen.end(), lm) == seen.end()) {
+            seen.push_back(lm);
+            out += "@" + is->url() + "=" + contentDigest(lm);
+            linkedModels(lm, seen, out, depth + 1);
+        }
+    }
+}
+
+static std::string modelDigest(const ModelPtr &m)
+{
+    if (!m) {
+        return "null";
+    }
+    std::vector<ModelPtr> seen = {m};
+    std::string linked;
+    linkedModels(m, seen, linked, 0);
+    return linked.empty() ? contentDigest(m) : sha1ish(contentDigest(m) + linked);
 }
 
 static int keepBlanks()
@@ -227,6 +272,7 @@ static void services(const J &sc, Emitter &out)
         } else if (op == "resolve") {
             auto &slot = s.I[strict ? 0 : 1];
             ImporterPtr im = fresh ? Importer::create(strict) : (slot ? slot : (slot = Importer::create(strict)));
+            std::string contentBefore = contentDigest(s.m);
             bool ok = s.m ? im->resolveImports(s.m, s.dir + "/") : false;
             if (!s.m) {
                 ModelPtr nul;
@@ -237,7 +283,8 @@ static void services(const J &sc, Emitter &out)
             res = std::string(ok ? "true" : "false") + "/" + std::to_string(s.m ? s.m->hasUnresolvedImports() : -1) + "/" + issuesDigest(im);
             fail = !ok;
             lg = im;
-            inBefore = modelDigest(s.m); // import links are outside the content digest; content must be unchanged
+            // resolution attaches models to the import sources (documented effect); the content of the model itself must be unchanged
+            inBefore = contentDigest(s.m) == contentBefore ? modelDigest(s.m) : "content changed by resolveImports";
         } else if (op == "flatten") {
             auto &slot = s.I[strict ? 0 : 1];
             ImporterPtr im = fresh ? Importer::create(strict) : (slot ? slot : (slot = Importer::create(strict)));
